@@ -439,6 +439,7 @@ func monitor(c fw.Case, out []string) []string {
 	created := map[string]bool{}                // records successfully created (by id text as listed)
 	spaces := map[string]bool{}                 // tx3 targets touched
 	latestEv := map[string]string{}             // event key (hex) -> ordinal of the latest successful write
+	tainted := false                            // v3 configuration: a write succeeded whose ObjectMeta.Key is not getKey(ID)
 	for i, ln := range c.Script {
 		if i >= len(out) {
 			break
@@ -526,6 +527,11 @@ func monitor(c fw.Case, out []string) []string {
 				continue
 			}
 			okWrite[rec] = true
+			if kind == "cfg3" && after["key"] != dashHex(after) {
+				// a client changed the ID of a record it holds and wrote it under the old entry key: from here
+				// on "the record of configuration X" is ambiguous; the value rules below are not evaluated
+				tainted = true
+			}
 			nv, _ := strconv.Atoi(after["ver"])
 			if after["ver"] == "!regress" {
 				add("versions: %s of %s handed back a version not above an earlier version of the same record", op, rec)
@@ -595,7 +601,7 @@ func monitor(c fw.Case, out []string) []string {
 			if (kind == "tx2" || kind == "tx3") && recIdx[rec] != "" && o["idx"] != recIdx[rec] {
 				add("index: record %s is read back with log index %s, it was created with %s", rec, o["idx"], recIdx[rec])
 			}
-			if isCfg(kind) {
+			if isCfg(kind) && !tainted {
 				side := rec
 				if kind == "cfg3" {
 					side = dashHex(o)
@@ -613,7 +619,7 @@ func monitor(c fw.Case, out []string) []string {
 			}
 			if cl == "o" {
 				txt := "pl=" + o["pl"] + " ver=" + o["ver"] + " rev=" + o["rev"] + " vals=" + o["vals"] + " avals=" + o["avals"]
-				if prev, ok := view[rec]; ok && !okWrite[rec] && prev != txt {
+				if prev, ok := view[rec]; ok && !okWrite[rec] && prev != txt && !tainted {
 					what := "refused-write-changed"
 					if failedCarry[rec] {
 						what = "refused-write-changed-values"
